@@ -10,7 +10,8 @@ def run(ctx):
     quick = ctx.quick
     defs = {
         "MCNames": tla_set_of(["a", "az", "z", "aa"] if quick else ["a", "az", "z", "aa", "za", "a_"]),
-        "MCHelps": tla_set_of(["a", "az"] if quick else ["a", "az", "z", "aÿ"]),
+        # help texts incl. two that differ only in a trailing / leading blank
+        "MCHelps": tla_set_of(["a", "az", "a "] if quick else ["a", "az", "z", "aÿ", "a ", " a", "a\n"]),
         "MCLN": tla_set_of(["a", "A", "az"] if quick else ["a", "A", "z", "az"]),      # incl. two names that differ only in case
         # values incl. boundary-shifted splits around plain letters and around U+FF (whose scalar value is the library's separator byte)
         "MCVals": "{<<>>, <<LA>>, <<LZ>>, <<LA, LZ>>, <<YUML>>, <<LA, YUML>>, <<YUML, LA>>}" if quick else "StrUpTo({LA, LZ}, 2) \\cup {<<LA, LZ, LA>>, <<EACUTE>>, <<LA, EACUTE>>, <<YUML>>, <<LA, YUML>>, <<YUML, LA>>}",
@@ -139,6 +140,15 @@ def run(ctx):
                         {"name": "m", "help": "H", "cl": [["a", "x" + c + "y"]], "vl": []}, {"name": "m", "help": "H", "cl": [["a", "x"], ["b", "y"]], "vl": []},
                         {"name": "m", "help": "H", "cl": [["a", "x" + c], ["b", "y"]], "vl": []}, {"name": "m", "help": "H", "cl": [["a", "x"], ["b", c + "y"]], "vl": []},
                         {"name": "m", "help": "H", "cl": [["a", "x" + c + "y"], ["b", ""]], "vl": []}, {"name": "m", "help": "H", "cl": [["a", ""], ["b", "x" + c + "y"]], "vl": []}])
+    # descriptors that differ only in the LAST byte(s) of a field that follows multi-byte characters (a key buffer sized in characters,
+    # or any other byte/char confusion, cuts the tail), and help texts that differ only in blanks at either end
+    for ch in ["é", "ÿ", "你", "\U0001F600", "éé", "你你"]:
+        batches.append([{"name": "m", "help": "H", "cl": [["a", ch + "1"]], "vl": []}, {"name": "m", "help": "H", "cl": [["a", ch + "2"]], "vl": []},
+                        {"name": "m", "help": "H", "cl": [["a", ch], ["b", "1"]], "vl": []}, {"name": "m", "help": "H", "cl": [["a", ch], ["b", "2"]], "vl": []},
+                        {"name": "m", "help": "H" + ch, "cl": [], "vl": ["zone_a"]}, {"name": "m", "help": "H" + ch, "cl": [], "vl": ["zone_b"]},
+                        {"name": "m", "help": "H" + ch + "C", "cl": [], "vl": []}, {"name": "m", "help": "H" + ch + "F", "cl": [], "vl": []},
+                        {"name": "m", "help": "H" + ch, "cl": [["zone_a", ""]], "vl": []}, {"name": "m", "help": "H" + ch, "cl": [["zone_b", ""]], "vl": []}])
+    batches.append([{"name": "m", "help": h, "cl": [], "vl": []} for h in ("Jobs done.", "Jobs done. ", " Jobs done.", "Jobs done.\n", "Jobs done.\t", " ", "  ", "Jobs  done.")])
     ojobs = []
     for bi, ds in enumerate(batches):
         for di, dsc in enumerate(ds):
